@@ -7,6 +7,8 @@
 //! op `hist` : market probes nops (op probes)*      op = 0 nq quote* | 1 order(0|1|2)
 //!     out   : cls0 [snapshot] (cls_i snapshot)*    (ends after the first Panic or if cls0 != Ok)
 //!     snapshot = per probe: 0 (rate() returned None) | 1 number
+//! ops `newj` / `histj`: the same, on the market RESTORED FROM ITS OWN SAVED DOCUMENT (to_json -> from_json) right after
+//!     construction — a freshly constructed market and its reloaded copy are the same market; a failing reload is an Err
 //! A quote whose constructor (FXRate::try_new) fails makes the enclosing constructor/op an Err.
 use crate::cal::Rd;
 use crate::dates::from_n;
@@ -14,6 +16,7 @@ use crate::numenc::{read_name, read_number, write_name, write_number};
 use crate::{f2i, Ints};
 use rateslib::dual::{ADOrder, Number};
 use rateslib::fx::rates::{Ccy, FXRate, FXRates};
+use rateslib::json::JSON;
 use std::panic::{catch_unwind, AssertUnwindSafe};
 
 struct Quote {
@@ -121,10 +124,20 @@ fn read_market(r: &mut Rd) -> (Vec<Quote>, Option<String>) {
     (qs, base)
 }
 
-fn run_new(a: &Ints) -> Ints {
+fn build_market_via(qs: &[Quote], base: &Option<String>, via_doc: bool) -> Result<FXRates, ()> {
+    let fx = build_market(qs, base)?;
+    if via_doc {
+        let txt = fx.to_json().map_err(|_| ())?;
+        FXRates::from_json(&txt).map_err(|_| ())
+    } else {
+        Ok(fx)
+    }
+}
+
+fn run_new(a: &Ints, via_doc: bool) -> Ints {
     let mut r = Rd::new(a);
     let (qs, base) = read_market(&mut r);
-    let (cls, fx) = attempt(|| build_market(&qs, &base));
+    let (cls, fx) = attempt(|| build_market_via(&qs, &base, via_doc));
     let mut out = vec![cls];
     if let Some(fx) = fx {
         let body = catch_unwind(AssertUnwindSafe(|| {
@@ -150,12 +163,12 @@ fn run_new(a: &Ints) -> Ints {
     out
 }
 
-fn run_hist(a: &Ints) -> Ints {
+fn run_hist(a: &Ints, via_doc: bool) -> Ints {
     let mut r = Rd::new(a);
     let (qs, base) = read_market(&mut r);
     let probes0 = read_probes(&mut r);
     let nops = r.next() as usize;
-    let (cls, fx) = attempt(|| build_market(&qs, &base));
+    let (cls, fx) = attempt(|| build_market_via(&qs, &base, via_doc));
     let mut out = vec![cls];
     let mut fx = match fx {
         Some(f) => f,
@@ -200,8 +213,10 @@ fn run_hist(a: &Ints) -> Ints {
 
 pub fn run(op: &str, a: &Ints) -> Ints {
     match op {
-        "new" => run_new(a),
-        "hist" => run_hist(a),
+        "new" => run_new(a, false),
+        "hist" => run_hist(a, false),
+        "newj" => run_new(a, true),
+        "histj" => run_hist(a, true),
         _ => panic!("unknown fx op"),
     }
 }
